@@ -16,6 +16,8 @@ import (
 	"filippo.io/age/xverif/internal/strm"
 	"filippo.io/age/xverif/internal/vk"
 	"filippo.io/age/xverif/internal/world"
+	"filippo.io/age/xverif/props/ageflow"
+	"filippo.io/age/xverif/props/c19"
 )
 
 var lengths = []int{0, 1, 65535, 65536, 65537, 131072, 131073, 196609, 5, 70000}
@@ -187,6 +189,9 @@ func runBoth(which, tier string) {
 		w.Identity(k)
 		w.Recipient(k)
 	}
+	// every Encrypt/Decrypt below is also recorded step by step (flow hooks) and replayed through AgeFlow.tla
+	ageflow.MachineMustHold(run)
+	rec := ageflow.Start(run.Pick(30000, 150000))
 	nsel := 0
 	vk.Parallel(len(cases), 16, func(i int) {
 		c := &cases[i]
@@ -202,6 +207,8 @@ func runBoth(which, tier string) {
 		}
 		run.Distinct(fmt.Sprintf("rs=%s/ids=%s", coregen.RecipSig(c.Rs), strings.Join(c.Ids, ",")))
 	})
+	ageflow.Validate(run, "own-cases", rec.Stop())
+	ageflow.RepoSuite(run)
 	for i := range cases {
 		c := &cases[i]
 		if (which == "C01") != (c.Opener == 0 && c.Enc.Ok) {
@@ -213,6 +220,8 @@ func runBoth(which, tier string) {
 	run.Sample(map[string]interface{}{"rs": coregen.RecipSig(c.Rs), "ids": c.Ids, "model_result": c.Res, "opener": c.Opener})
 	if which == "C01" {
 		armorAlignment(run, w, pt)
+		workFactorBoundary(run)
+		c19.OpensWhenAddressed(run)
 	} else {
 		nearMisses(run, w, pt)
 	}
@@ -238,3 +247,39 @@ func armorAlignment(run *vk.Run, w *world.World, pt []byte) {
 // RunC01 / RunC04 are the check entry points.
 func RunC01(tier string) { runBoth("C01", tier) }
 func RunC04(tier string) { runBoth("C04", tier) }
+
+// workFactorBoundary: a passphrase file is opened by the passphrase identity whenever its work factor is within the
+// identity's configured maximum, the maximum itself included (C10 checks the refusals above it; a refusal at or
+// below it would be recorded there only as drift, so the positive side is judged here).
+func workFactorBoundary(run *vk.Run) {
+	msg := []byte("work factor boundary")
+	for _, wf := range []int{1, 3, 10} {
+		sr, err := age.NewScryptRecipient("boundary passphrase")
+		if err != nil {
+			vk.Infra("%v", err)
+		}
+		sr.SetWorkFactor(wf)
+		file, err := encryptTo(sr, msg)
+		if err != nil {
+			vk.Infra("%v", err)
+		}
+		for _, max := range []int{wf, wf + 1, 22, 0} {
+			id, _ := age.NewScryptIdentity("boundary passphrase")
+			if max > 0 {
+				id.SetMaxWorkFactor(max)
+			}
+			r, err := age.Decrypt(bytes.NewReader(file), id)
+			var got []byte
+			if err == nil {
+				got, err = io.ReadAll(r)
+			}
+			run.Eval(1)
+			run.Distinct(fmt.Sprintf("wf-boundary:%d/%d", wf, max))
+			if err != nil || !bytes.Equal(got, msg) {
+				run.Violation(fmt.Sprintf("C01:listed-recipient-cannot-decrypt:scrypt-wf=%d/max=%d", wf, max),
+					fmt.Sprintf("a passphrase file with work factor %d is not opened by the passphrase identity with maximum %d (0 = default): %v", wf, max, err),
+					map[string]interface{}{"check": "C01.wfboundary", "wf": wf, "max": max})
+			}
+		}
+	}
+}
